@@ -20,8 +20,14 @@ use crate::src::Src;
 
 pub const RULE: &str = "histories of register (plain closure or CustomFunction with a generated signature) / deregister / register-builtins operations over a pool of names (built-in names and fresh ones) in rounds; after every round each pooled name and a never-registered name is called with 0..3 arguments (literals, fields, projections, expression references) on a document; model = a map name -> entry: presence (get_function, deregister result), which function answers (each custom function returns its id and logs the arguments it receives), unknown-function otherwise, built-ins answer as the default runtime does, logged arguments equal the reference evaluation of the argument expressions in source order with references passed unevaluated, and a CustomFunction runs iff the model's own signature check accepts the arguments; non-trivial = the history shadows a built-in or re-registers a name and a call passes >= 2 arguments (distinct by history text)";
 
-const NAMES: &[&str] = &["length", "abs", "sort_by", "to_string", "f", "g", "my_fn", "Length"];
+// short names, built-in names, and long names that share a long prefix and their length
+const NAMES: &[&str] = &[
+    "length", "abs", "sort_by", "to_string", "f", "g", "my_fn", "Length", "normalize_string_nfc", "normalize_string_nfd", "normalize_string_nfkc",
+    "a_very_long_function_name_with_a_common_prefix_1", "a_very_long_function_name_with_a_common_prefix_2",
+];
 const NEVER: &str = "never_registered";
+// never registered either, but one character away from registered names
+const NEVER_NEAR: &[&str] = &["normalize_string_nfx", "a_very_long_function_name_with_a_common_prefix_3", "lengt", "length_", "F"];
 const DOC: &str = "{\"n\":3,\"s\":\"str\",\"xs\":[1,2,3],\"o\":{\"a\":1},\"z\":null,\"objs\":[{\"a\":1},{\"a\":2}]}";
 
 #[derive(Clone, Debug)]
@@ -176,7 +182,7 @@ fn history(src: &mut Src, st: &mut Stats, _env: &Env) -> CaseResult {
             }
         }
         // presence
-        for name in NAMES.iter().chain([NEVER].iter()) {
+        for name in NAMES.iter().chain([NEVER].iter()).chain(NEVER_NEAR.iter()) {
             let got = rt.get_function(name).is_some();
             let want = model.contains_key(*name);
             if got != want {
@@ -184,10 +190,23 @@ fn history(src: &mut Src, st: &mut Stats, _env: &Env) -> CaseResult {
             }
         }
         // calls
-        for name in NAMES.iter().chain([NEVER].iter()) {
+        for name in NAMES.iter().chain([NEVER].iter()).chain(NEVER_NEAR.iter()) {
             let nargs = src.below(4);
-            let arg_texts: Vec<&str> = (0..nargs).map(|_| *src.pick(&["n", "s", "xs", "o", "z", "`1`", "'lit'", "xs[*]", "objs[*].a", "&n", "&objs[0].a", "xs[0]", "`[1, 2]`", "&@"])).collect();
-            let expr = format!("{}({})", name, arg_texts.join(", "));
+            let nn_builtin = matches!(model.get("not_null"), Some(Entry::Builtin));
+            let plain = ["n", "s", "xs", "o", "z", "`1`", "'lit'", "xs[*]", "objs[*].a", "&n", "&objs[0].a", "xs[0]", "`[1, 2]`", "&@"];
+            let with_calls = ["n", "s", "xs", "not_null(s)", "not_null(z, n)", "not_null(not_null(xs))", "`1`", "&n", "not_null(z, z, o)", "xs[0]"];
+            let arg_texts: Vec<&str> = (0..nargs).map(|_| if nn_builtin && src.chance(100) { *src.pick(&with_calls) } else { *src.pick(&plain) }).collect();
+            let mut expr = format!("{}({})", name, arg_texts.join(", "));
+            // sometimes the call sits under a tower of enclosing calls (only when the
+            // wrapper is the built-in not_null, whose result is its first non-null argument)
+            let mut tower = 0usize;
+            if nn_builtin && *name != "not_null" && src.chance(70) {
+                tower = 1 + src.below(14);
+            }
+            let inner_expr = expr.clone();
+            for _ in 0..tower {
+                expr = format!("not_null(z, {})", expr);
+            }
             hist.push(format!("call {}", expr));
             let case = json!({"history": hist, "document": DOC});
             let before = log.lock().unwrap().len();
@@ -203,7 +222,10 @@ fn history(src: &mut Src, st: &mut Stats, _env: &Env) -> CaseResult {
             };
             let new_logs: Vec<(usize, Vec<String>)> = log.lock().unwrap()[before..].to_vec();
             // reference view of the arguments
-            let tree = refparse::parse(&expr, Mode::Strict).map_err(|e| Failure::new("history", "harness-ref", e.msg, case.clone()))?;
+            let tree = refparse::parse(&inner_expr, Mode::Strict).map_err(|e| Failure::new("history", "harness-ref", e.msg, case.clone()))?;
+            if tower >= 8 {
+                st.class("call-under-tower>=8");
+            }
             let argtrees = match &tree {
                 RefExpr::Call(_, a) => a.clone(),
                 _ => vec![],
